@@ -192,8 +192,8 @@ def all_jobs(prop, tier, seed, scale=1.0):
     if prop == 'C10':
         jobs += [{'kind': 'hashdiff', 'prop': prop, 'tier': tier, 'i': i, 'n': 8,
                   'H': 4 if q else 12,
-                  'seed': sub_seed('hashdiff', tier, seed, i)} for i in range(n_(16, 112))]
-    if prop == 'C13':
+                  'seed': sub_seed('hashdiff', tier, seed, i)} for i in range(n_(24, 128))]
+    if prop in ('C13', 'C12'):
         jobs += [{'kind': 'pause', 'prop': prop, 'tier': tier, 'i': i,
                   'seed': sub_seed('pause13', tier, seed, i)} for i in range(n_(96, 960))]
     if prop == 'C11':
